@@ -145,6 +145,92 @@ def conf_suite(res, tier, seed):
                   dict(outcomes=kinds))
 
 
+def subclass_case(i_seed):
+    """user subclasses of int / str / float / Decimal / list / set / dict / tuple as declared types (bare, as element and value
+    types, as a Rule origin with a constraint, as a data-class field and a function parameter / return): whatever input is
+    accepted, every place declared with the subclass must hold an instance of it"""
+    import warnings, enum
+    warnings.simplefilter("ignore")
+    import utype
+    from utype import Schema, Rule, Options
+    from utype.utils.transform import type_transform
+    from typing import List, Dict, Optional, Tuple
+    rng = random.Random(i_seed)
+    base = rng.choice([int, int, str, float, Decimal, list, set, dict, tuple])
+    Sub = type("Sub" + base.__name__.capitalize(), (base,), {})
+
+    class En(enum.Enum):
+        A = 7
+        B = "b"
+    scal = [7, "7", 7.0, True, False, "true", "false", "on", "no", b"7", "7.0", Decimal("7"), En.A, En.B, None, "", " 5 ", "1e2", 0, -3, 2.5]
+    wrap1 = lambda v: rng.choice([[v], (v,), {v} if not isinstance(v, (list, dict, set)) else [v]])
+    pool = scal + [[1, 2], (1,), {1}, {"a": 1}, [("a", 1)], "a=1", '{"a": 1}', "[1, 2]", "ab", b"ab"]
+    v = rng.choice(pool)
+    if rng.random() < 0.3:
+        v = wrap1(v)
+    shape = rng.choice(["bare", "list", "dict", "optional", "tuple", "rule", "field", "param", "return"])
+    opts = Options(**rng.choice([{}, {}, {"no_explicit_cast": True}, {"no_data_loss": True}]))
+
+    def check(x, where):
+        return None if isinstance(x, Sub) else "%s holds %r of type %s, not an instance of the declared %s(%s)" % (where, x, type(x).__name__, Sub.__name__, base.__name__)
+    try:
+        if shape == "bare":
+            r = type_transform(v, Sub, options=opts); bad = check(r, "the result")
+        elif shape == "list":
+            r = type_transform([v, v], Rule.parse_annotation(List[Sub]), options=opts); bad = next((b for b in (check(x, "an element") for x in r) if b), None)
+        elif shape == "dict":
+            r = type_transform({"k": v}, Rule.parse_annotation(Dict[str, Sub]), options=opts); bad = check(r["k"], "a value")
+        elif shape == "optional":
+            r = type_transform(v, Rule.parse_annotation(Optional[Sub]), options=opts); bad = None if r is None else check(r, "the result")
+        elif shape == "tuple":
+            r = type_transform([v, 1], Rule.parse_annotation(Tuple[Sub, int]), options=opts); bad = check(r[0], "item 0")
+        elif shape == "rule":
+            cons = {int: {"ge": -100}, float: {"ge": -100}, Decimal: {"ge": -100}, str: {"max_length": 50}}.get(base, {"max_length": 50})
+            R = Rule.annotate(Sub, constraints=cons)
+            r = type_transform(v, R, options=opts); bad = check(r, "the result")
+        elif shape == "field":
+            K = type("SubHolder", (Schema,), {"__annotations__": {"f": Sub, "fs": List[Sub]}, "fs": utype.Field(default_factory=list), "__options__": opts})
+            k = K(f=v, fs=[v]); bad = check(k.f, "field f") or next((b for b in (check(x, "an element of fs") for x in k.fs) if b), None)
+        elif shape == "param":
+            seen = []
+
+            @utype.parse(options=opts)
+            def fn(a: Sub):
+                seen.append(a)
+                return a
+            fn(v); bad = check(seen[0], "parameter a")
+        else:
+            @utype.parse(options=opts)
+            def fn2(a) -> Sub:
+                return a
+            r = fn2(v); bad = check(r, "the return value")
+    except Exception as e:
+        return ("rejected", shape, base.__name__)
+    if bad:
+        return ("nonconforming", "%s (input %r, shape %s, options %r)" % (bad, v, shape, opts), base.__name__)
+    return ("ok", shape, base.__name__)
+
+
+def subclass_suite(res, tier, seed):
+    n = 4000 if tier == "quick" else 60000
+    outs = core.pool_map(subclass_case, [seed * 1000081 + i for i in range(n)])
+    agg = {}
+    bad = []
+    for o in outs:
+        if isinstance(o, tuple):
+            agg[o[0]] = agg.get(o[0], 0) + 1
+            if o[0] == "nonconforming":
+                bad.append(o[1])
+    res.add_suite("subclass-targets", n, n, ["seeded: subclass of int / str / float / Decimal / list / set / dict / tuple x 9 shapes x inputs"],
+                  "user subclasses of the builtin targets as declared types (bare, List / Dict / Optional / Tuple element, Rule origin with a "
+                  "constraint, Schema field, function parameter and return), inputs over scalars in every accepted spelling (numbers, "
+                  "texts, true / false words, bytes, Decimal, Enum members, single-item collections) and containers, 3 option sets: every "
+                  "accepted input must leave an instance of the declared subclass in every declared place",
+                  dict(failures=len(bad), outcomes=agg))
+    for m in bad[:3]:
+        res.violations.append(dict(case=repr(dict(kind="subclass-target")), observed=m, what=m))
+
+
 def main(tier, seed):
     res = core.Result(PID, tier, seed)
     core.prove(res, PID)
@@ -153,6 +239,7 @@ def main(tier, seed):
     cases = [parsesuite.gen_case(rng) if i % 3 else parsesuite.gen_union_case(rng) for i in range(n)]
     parsesuite.run_suite(res, cases, "parse")
     conf_suite(res, tier, seed)
+    subclass_suite(res, tier, seed)
     findings.replay_all(res, PID, {"C01-lax-kind": lax_kind_finding})
     res.violations = res.violations[:3]
     return core.finish(res, "make -C coq Props/C01.vo && coqc (Print Assumptions audit)", "see suites", search=None,
